@@ -15,7 +15,7 @@ VERIF_DIR = os.path.dirname(os.path.abspath(__file__))
 
 
 class Ev:
-    __slots__ = ('idx', 'thread', 'kind', 'file', 'path', 'line', 'func', 'inv', 'arg', 'data', 'nsnap', 'njournal')
+    __slots__ = ('idx', 'thread', 'kind', 'file', 'path', 'line', 'func', 'inv', 'arg', 'data', 'nsnap', 'njournal', 'prog')
 
     def __init__(self, idx, thread, kind, path, line, func, inv, arg):
         self.idx = idx
@@ -41,6 +41,7 @@ class Run:
     def __init__(self):
         self.events = []        # reference events of program frames, in order
         self.escaped = []       # (event idx, exception) raised out of handler.trace_call
+        self.foreign = 0        # forwarded events of non-program frames (stdlib etc.)
         self.result = None
         self.exc = None
         self.trace_after = None
@@ -92,16 +93,19 @@ class Forwarder:
 
     def _handle(self, frame, event, arg):
         path = frame.f_code.co_filename
-        ev = None
-        if path in self.prog:
-            ev = Ev(len(self.run.events), threading.current_thread().name, event, path, frame.f_lineno,
-                    frame.f_code.co_name, self._inv(frame), arg)
+        if path.startswith(VERIF_DIR) or '/src/deep/' in path.replace('\\', '/'):
+            # harness frames and the agent's own frames are never host frames
+            return None
+        is_prog = path in self.prog
+        ev = Ev(len(self.run.events) if is_prog else -1, threading.current_thread().name, event, path, frame.f_lineno,
+                frame.f_code.co_name, self._inv(frame) if is_prog else 0, arg)
+        ev.prog = is_prog
+        if is_prog:
             self.run.events.append(ev)
             if self.probe is not None:
                 ev.data = self.probe(ev, frame)
-        elif path.startswith(VERIF_DIR) or '/deep/' in path.replace('\\', '/') and '/src/deep/' in path:
-            # harness frames and the agent's own frames are never host frames
-            return None
+        else:
+            self.run.foreign += 1
         r = self.trace
         if self.handler is not None:
             try:
@@ -110,14 +114,12 @@ class Forwarder:
                 else:
                     r = self.handler.trace_call(frame, event, arg)
             except BaseException as e:  # would be raised into the host by CPython
-                self.run.escaped.append((ev.idx if ev else None, e, event, os.path.basename(path), frame.f_lineno))
+                self.run.escaped.append((ev.idx, e, event, os.path.basename(path), frame.f_lineno))
                 r = self.trace
-            if event == 'call' and r is None:
-                if ev is not None and self.after is not None:
-                    self.after(ev, frame)
-                return None
-        if ev is not None and self.after is not None:
+        if self.after is not None:
             self.after(ev, frame)
+        if self.handler is not None and event == 'call' and r is None:
+            return None
         return self.trace
 
     def trace(self, frame, event, arg):
